@@ -63,7 +63,7 @@ func c02RouteOnce(c *Ctx) {
 	c.Doc("C02.route-once", "partitionProducer.dispatch, one iteration of range pp.input: the received message is forwarded to brokerProducer.input, or parked in retryState[..].buf, or (fin) accounted with Done, or failed — exactly one of them on every path (events are value-sensitive: only operations on the iteration's message count)")
 	c.Doc("C02.park-guard", "the park is guarded by msg.retries < pp.highWatermark, and from the edge where that holds the forward send is unreachable within the iteration")
 	c.Floor("C02.route-once", 1)
-	c.Floor("C02.park-guard", 2)
+	c.Floor("C02.park-guard", 3)
 	fn := c.NeedFn("C02.route-once", "partitionProducer.dispatch")
 	if fn == nil {
 		return
@@ -95,6 +95,18 @@ func c02RouteOnce(c *Ctx) {
 	retries := FieldLoadOf("ProducerMessage.retries", isMsg)
 	hwm := FieldLoad("partitionProducer.highWatermark")
 	below := Cmp{token.LSS, retries, hwm}
+	// a parked message goes into the buffer of ITS OWN retry level, retryState[msg.retries]: flushRetryBuffers
+	// releases the levels one after the other, which is what puts once-bounced messages in front of fresh ones
+	for _, s := range reg.Find(park) {
+		st := s.In.(*ssa.Store)
+		okLevel := false
+		if fa, ok := st.Addr.(*ssa.FieldAddr); ok {
+			if ia, ok := fa.X.(*ssa.IndexAddr); ok {
+				okLevel = FieldLoadOf("ProducerMessage.retries", isMsg)(ia.Index) && FieldLoad("partitionProducer.retryState")(ia.X)
+			}
+		}
+		c.Check(okLevel, "C02.park-guard", fn, "park-level", st, "a message is parked in retryState[msg.retries]", "a message is parked in another level's buffer than retryState[msg.retries]: messages of different retry levels are mixed in arrival order and the level-by-level flush no longer restores submission order", nil)
+	}
 	for _, s := range reg.Find(park) {
 		g, path := reg.Guarded(s, below)
 		c.Check(g, "C02.park-guard", fn, "park-guard", s.Instr(), "park guarded by msg.retries < pp.highWatermark",
